@@ -93,6 +93,12 @@ Proof.
   - exists x. split; [left; reflexivity|assumption].
   - destruct (IHForall2 Hin) as (a & Ha & HR). exists a. split; [right; exact Ha|exact HR].
 Qed.
+Lemma Forall2_in_l {A B} (R : A -> B -> Prop) l l' a : Forall2 R l l' -> In a l -> exists b, In b l' /\ R a b.
+Proof.
+  induction 1; intros Hin; [destruct Hin|]. destruct Hin as [<-|Hin].
+  - exists y. split; [left; reflexivity|assumption].
+  - destruct (IHForall2 Hin) as (b & Hb & HR). exists b. split; [right; exact Hb|exact HR].
+Qed.
 Lemma Forall2_map_l {A B C} (R : C -> B -> Prop) (f : A -> C) l l' :
   Forall2 R (map f l) l' <-> Forall2 (fun a b => R (f a) b) l l'.
 Proof.
@@ -268,13 +274,15 @@ Section Good2.
   Qed.
 
   Lemma clone_output_ok st st' v c :
-    good st -> v < n0 -> clone_output deep v st = (st', Ok c) -> good st' /\ VR st' v c.
+    good st -> v < n0 -> clone_output deep v st = (st', Ok c) ->
+    good st' /\ (VR st' v c /\ assoc v (vmap st') <> None).
   Proof.
     intros G Hv H. unfold clone_output in H.
     inv_bind H. destruct (copy_value_ok _ _ _ _ G Hv H0) as [G1 V1].
     inv_bind H. unfold vmap_set in H1. inversion H1; subst; clear H1. inversion H; subst; clear H.
-    split; [apply good_vmap_set; assumption|].
-    destruct V1 as (K1 & K2 & K3). split; [exact K1|]. split; [exact K2|exact K3].
+    split; [apply good_vmap_set; assumption|]. split.
+    - destruct V1 as (K1 & K2 & K3). split; [exact K1|]. split; [exact K2|exact K3].
+    - simpl. rewrite Pos.eqb_refl. discriminate.
   Qed.
 
   Lemma get_mapped_ok st st' v c : good st -> get_mapped v st = (st', Ok c) -> st' = st /\ VR st v c.
@@ -289,17 +297,19 @@ Section Good2.
     match i, i' with
     | None, None => True
     | Some v, Some c => c < next (hp st) /\ (n0 <= c \/ allowed st c) /\
-                        (WF -> vref (cells (hp st)) c = vref (cells h0) v)
+                        (WF -> vref (cells (hp st)) c = vref (cells h0) v) /\
+                        (assoc v (vmap st) <> None \/ In v (passed st))
     | _, _ => False
     end.
 
   Lemma IR_le st st' i i' : good st -> le st st' -> IR st i i' -> IR st' i i'.
   Proof.
     intros G L H. unfold IR in *. destruct i as [v|], i' as [c|]; try exact H.
-    destruct H as (H1 & H2 & H3). split; [|split].
+    destruct H as (H1 & H2 & H3 & H4). split; [|split; [|split]].
     - destruct L as [[L1 _] _]. lia.
     - destruct H2 as [H2|H2]; [left; exact H2|right; eapply allowed_le; eassumption].
     - intros W. rewrite <- (H3 W). apply (vref_le _ _ L). exact H1.
+    - destruct L as (_ & L2 & L3 & _). destruct H4 as [H4|H4]; [left; apply L2, H4|right; apply L3, H4].
   Qed.
 
   Lemma clone_input_ok st st' i i' :
@@ -310,16 +320,19 @@ Section Good2.
     - specialize (Hi v eq_refl). inv_bind H. unfold vmap_get in H0. inversion H0; subst; clear H0.
       destruct (assoc v (vmap st0)) as [k|] eqn:E.
       + inversion H; subst. split; [exact G|]. destruct (g_vmap _ _ _ _ G _ _ E) as (K1 & K2 & K3).
-        simpl. split; [apply K1|]. split; [left; apply K1|]. intros W. apply vref_of_vcanon. apply K3, W.
+        simpl. split; [apply K1|]. split; [left; apply K1|]. split; [intros W; apply vref_of_vcanon; apply K3, W|].
+        left. rewrite E. discriminate.
       + assert (Ea : allow = true) by (clear G; destruct allow; [reflexivity|discriminate H]).
         rewrite Ea in H. bind_as H sx ax Epa. unfold pass_add in Epa.
         injection Epa as Hsx _. subst sx. unfold ret in H. injection H as Hs Hi'. subst st' i'.
         assert (G' : good (St (hp st0) (vmap st0) (v :: passed st0) (kept st0))).
-        { apply good_ghost; [exact G|apply incl_tl, incl_refl|apply incl_refl|]. intros; exact Ea. }
-        split; [exact G'|]. simpl. split; [|split].
+        { apply good_ghost; [exact G|apply incl_tl, incl_refl|apply incl_refl|intros; exact Ea|].
+          intros Wd y Hy. right. apply (g_kept _ _ _ _ G Wd y Hy). }
+        split; [exact G'|]. simpl. split; [|split; [|split]].
         * pose proof (g_ext _ _ _ _ G) as [K _]. lia.
         * right. split; [exact Hi|]. right. right. left. simpl. left. reflexivity.
         * intros _. apply (vref_old _ _ _ _ G'). exact Hi.
+        * right. left. reflexivity.
     - inversion H; subst. split; [exact G|exact I].
   Qed.
 End Good2.
